@@ -198,11 +198,15 @@ void accept_token(DString * d, token * t) {
 				break;
 			}
 
-		case CM_SUB_DIV:
 		case CM_DEL_PAIR:
 		case CM_COM_PAIR:
 			// Erase these
 			d_string_erase(d, t->start, t->len);
+			break;
+
+		case CM_SUB_DIV:
+			// A '~>' outside of a substitution is not markup -- leave it alone
+			// (inside a substitution it is handled by accept_token_tree_sub)
 			break;
 
 		case CM_SUB_PAIR:
@@ -263,6 +267,12 @@ void reject_token_tree_sub(DString * d, token * t) {
 		t = t->prev;
 	}
 
+	if (t) {
+		// Erase the divider itself
+		d_string_erase(d, t->start, t->len);
+		t = t->prev;
+	}
+
 	while (t) {
 
 		reject_token(d, t);
@@ -290,11 +300,15 @@ void reject_token(DString * d, token * t) {
 				break;
 			}
 
-		case CM_SUB_DIV:
 		case CM_ADD_PAIR:
 		case CM_COM_PAIR:
 			// Erase these
 			d_string_erase(d, t->start, t->len);
+			break;
+
+		case CM_SUB_DIV:
+			// A '~>' outside of a substitution is not markup -- leave it alone
+			// (inside a substitution it is handled by reject_token_tree_sub)
 			break;
 
 		case CM_SUB_PAIR:
